@@ -621,10 +621,10 @@ func init() {
 		// ---------------- logging: no-ops
 		"(*go.uber.org/zap.Logger).Debug": mNop, "(*go.uber.org/zap.Logger).Info": mNop, "(*go.uber.org/zap.Logger).Warn": mNop,
 		"(*go.uber.org/zap.Logger).Error": mNop,
-		"go.uber.org/zap.Duration": func(in *Interp, fn *ssa.Function, a []Value) Value { return in.zeroResults(fn) },
-		"go.uber.org/zap.String":   func(in *Interp, fn *ssa.Function, a []Value) Value { return in.zeroResults(fn) },
-		"go.uber.org/zap.Error":    func(in *Interp, fn *ssa.Function, a []Value) Value { return in.zeroResults(fn) },
-		"log.Printf": mNop, "log.Println": mNop, "log.Print": mNop,
+		"go.uber.org/zap.Duration":        func(in *Interp, fn *ssa.Function, a []Value) Value { return in.zeroResults(fn) },
+		"go.uber.org/zap.String":          func(in *Interp, fn *ssa.Function, a []Value) Value { return in.zeroResults(fn) },
+		"go.uber.org/zap.Error":           func(in *Interp, fn *ssa.Function, a []Value) Value { return in.zeroResults(fn) },
+		"log.Printf":                      mNop, "log.Println": mNop, "log.Print": mNop,
 
 		// ---------------- runtime / misc
 		"runtime.Callers":                            func(in *Interp, fn *ssa.Function, a []Value) Value { return in.i64(0) },
